@@ -42,6 +42,21 @@ PROPS["C05"] = {
     ],
 }
 
+ROOT_ENV = {"GOGC": "off"}  # see DESIGN.md 2.2: bucketteer.NewWriter reserves 8 GiB per call; recycling that memory costs seconds
+
+PROPS["C01"] = {
+    "technique": "property-based testing (rapid): generated well-formed epoch CARs with ground-truth offset table; every object/slot/signature looked up through the real `index all` output and a loaded Epoch",
+    "level_text": "Generated-input search over well-formed epoch CARs built by the shared generator (reference dag-cbor encoder, own CAR writer): createAllIndexes runs on each, then every object is fetched by CID through the index and through Epoch.GetNodeByCid and compared with the generator's offset/length/bytes, every slot and first signature is resolved, block times and sig-exists are checked. Classes forced: 1/2/3-byte section-length varints, three header lengths, local file vs HTTP ReaderAt, bulk epochs at the 10000-per-bucket boundaries. Exploration level.",
+    "level_note": "Trusted: ipld-prime bindnode+dag-cbor encoder, solana-go marshalling, zstd, protobuf, sha-256 and the ~40-line CAR writer of lib/cargen. Disk faults during sealing are not injected.",
+    "rule": ("rapid draws an epoch spec (epoch number, 1..12 blocks with slot gaps, 0..3 entries, 0..3 tx per entry, legacy/v0/vote tx, metadata 0..40 KB in 1..23 frames with fan-out 1..10, rewards, "
+             "root CID hash kind = header length, data-frame variants); bulk unit appends 99..10001 uniform blocks. non-trivial = >=2 blocks, >=2 transactions and >=1 section with a 2- or 3-byte length varint; distinct by case hash"),
+    "assumptions": ["reference encoder and cargen CAR writer are correct (a wrong generator shows as a false alarm on the unchanged tree, not as a silent pass)"],
+    "units": [
+        {"name": "index-all", "pkg": ".", "run": "TestVfC01", "checks": T(120, 2400), "shards": T(6, 16), "timeout": T(900, 3000), "env": ROOT_ENV},
+        {"name": "index-all-bulk", "pkg": ".", "run": "TestVfC01Bulk", "checks": T(2, 48), "shards": T(2, 12), "timeout": T(900, 3000), "env": ROOT_ENV, "tiers": ("quick", "thorough")},
+    ],
+}
+
 
 # properties not (yet) claimed by a check; kept current by hand
 NOT_APPLICABLE = [
